@@ -618,4 +618,227 @@ func stOfState(x State) *state {
 //@     invariant forall k in i+1..len(s.open) :: !specEqual(segOf(desc), segOf(s.open[k]))
 //@     decreases i + 1
 
+
+// ---------------------------------------------------------------- C09: setters (each writes exactly its field)
+
+//@ func (d *segmentationDescriptor) SetEventID(value uint32)
+//@   props C09 C05
+//@   requires d != nil
+//@   ensures d.eventID == value
+//@   modifies d.eventID
+
+//@ func (d *segmentationDescriptor) SetIsEventCanceled(value bool)
+//@   props C09 C05
+//@   requires d != nil
+//@   ensures d.eventCancelIndicator == value
+//@   modifies d.eventCancelIndicator
+
+//@ func (d *segmentationDescriptor) SetHasDuration(value bool)
+//@   props C09 C05
+//@   requires d != nil
+//@   ensures d.hasDuration == value
+//@   modifies d.hasDuration
+
+//@ func (d *segmentationDescriptor) SetSegmentNumber(value uint8)
+//@   props C09 C05
+//@   requires d != nil
+//@   ensures d.segNum == value
+//@   modifies d.segNum
+
+//@ func (d *segmentationDescriptor) SetSegmentsExpected(value uint8)
+//@   props C09 C05
+//@   requires d != nil
+//@   ensures d.segsExpected == value
+//@   modifies d.segsExpected
+
+//@ func (d *segmentationDescriptor) SetSubSegmentNumber(value uint8)
+//@   props C09 C05
+//@   requires d != nil
+//@   ensures d.subSegNum == value
+//@   modifies d.subSegNum
+
+//@ func (d *segmentationDescriptor) SetSubSegmentsExpected(value uint8)
+//@   props C09 C05
+//@   requires d != nil
+//@   ensures d.subSegsExpected == value
+//@   modifies d.subSegsExpected
+
+//@ func (d *segmentationDescriptor) SetHasProgramSegmentation(value bool)
+//@   props C09 C05
+//@   requires d != nil
+//@   ensures d.programSegmentationFlag == value
+//@   modifies d.programSegmentationFlag
+
+//@ func (d *segmentationDescriptor) SetIsDeliveryNotRestricted(value bool)
+//@   props C09 C05
+//@   requires d != nil
+//@   ensures d.deliveryNotRestricted == value
+//@   modifies d.deliveryNotRestricted
+
+//@ func (d *segmentationDescriptor) SetIsWebDeliveryAllowed(value bool)
+//@   props C09 C05
+//@   requires d != nil
+//@   ensures d.webDeliveryAllowedFlag == value
+//@   modifies d.webDeliveryAllowedFlag
+
+//@ func (d *segmentationDescriptor) SetIsArchiveAllowed(value bool)
+//@   props C09 C05
+//@   requires d != nil
+//@   ensures d.archiveAllowedFlag == value
+//@   modifies d.archiveAllowedFlag
+
+//@ func (d *segmentationDescriptor) SetHasNoRegionalBlackout(value bool)
+//@   props C09 C05
+//@   requires d != nil
+//@   ensures d.noRegionalBlackoutFlag == value
+//@   modifies d.noRegionalBlackoutFlag
+
+//@ func (d *segmentationDescriptor) SetDeviceRestrictions(value DeviceRestrictions)
+//@   props C09 C05
+//@   requires d != nil
+//@   ensures d.deviceRestrictions == value
+//@   modifies d.deviceRestrictions
+
+//@ func (d *segmentationDescriptor) SetHasSubSegments(value bool)
+//@   props C09 C05
+//@   requires d != nil
+//@   ensures d.hasSubSegments == value
+//@   modifies d.hasSubSegments
+
+//@ func (d *segmentationDescriptor) SetDuration(value gots.PTS)
+//@   props C09 C05
+//@   requires d != nil
+//@   ensures d.duration == value&0xFFFFFFFFFF
+//@   modifies d.duration
+
+//@ func (d *segmentationDescriptor) SetTypeID(value SegDescType)
+//@   props C09 C05
+//@   requires d != nil
+//@   ensures d.typeID == value && (value != 0x34 && value != 0x36 ==> !d.hasSubSegments) && (value == 0x34 || value == 0x36 ==> d.hasSubSegments == old(d.hasSubSegments))
+//@   modifies d.typeID, d.hasSubSegments
+
+//@ func (d *segmentationDescriptor) SetUPIDType(value SegUPIDType)
+//@   props C09 C05
+//@   requires d != nil
+//@   ensures d.upidType == value
+//@   ensures value == SegUPIDMID ==> len(d.upid) == 0 && len(d.mid) == old(len(d.mid))
+//@   ensures value == SegUPIDNotUsed ==> len(d.upid) == 0 && len(d.mid) == 0
+//@   ensures value != SegUPIDMID && value != SegUPIDNotUsed ==> len(d.mid) == 0 && len(d.upid) == old(len(d.upid))
+//@   modifies d.upidType, d.upid, d.mid
+
+//@ func (d *segmentationDescriptor) SetUPID(value []byte)
+//@   props C09 C05
+//@   requires d != nil
+//@   ensures d.upidType != SegUPIDMID ==> len(d.upid) == len(value) && (len(value) > 0 ==> &d.upid[0] == &value[0])
+//@   ensures d.upidType == SegUPIDMID ==> len(d.upid) == old(len(d.upid))
+//@   modifies d.upid
+
+//@ func (c *spliceInsert) SetEventID(value uint32)
+//@   props C09 C05
+//@   requires c != nil
+//@   ensures c.eventID == value
+//@   modifies c.eventID
+
+//@ func (c *spliceInsert) SetIsOut(value bool)
+//@   props C09 C05
+//@   requires c != nil
+//@   ensures c.outOfNetworkIndicator == value
+//@   modifies c.outOfNetworkIndicator
+
+//@ func (c *spliceInsert) SetIsEventCanceled(value bool)
+//@   props C09 C05
+//@   requires c != nil
+//@   ensures c.eventCancelIndicator == value
+//@   modifies c.eventCancelIndicator
+
+//@ func (c *spliceInsert) SetHasPTS(value bool)
+//@   props C09 C05
+//@   requires c != nil
+//@   ensures c.hasPTS == value
+//@   modifies c.hasPTS
+
+//@ func (c *spliceInsert) SetHasDuration(value bool)
+//@   props C09 C05
+//@   requires c != nil
+//@   ensures c.hasDuration == value
+//@   modifies c.hasDuration
+
+//@ func (c *spliceInsert) SetIsAutoReturn(value bool)
+//@   props C09 C05
+//@   requires c != nil
+//@   ensures c.autoReturn == value
+//@   modifies c.autoReturn
+
+//@ func (c *spliceInsert) SetUniqueProgramId(value uint16)
+//@   props C09 C05
+//@   requires c != nil
+//@   ensures c.uniqueProgramId == value
+//@   modifies c.uniqueProgramId
+
+//@ func (c *spliceInsert) SetAvailNum(value uint8)
+//@   props C09 C05
+//@   requires c != nil
+//@   ensures c.availNum == value
+//@   modifies c.availNum
+
+//@ func (c *spliceInsert) SetAvailsExpected(value uint8)
+//@   props C09 C05
+//@   requires c != nil
+//@   ensures c.availsExpected == value
+//@   modifies c.availsExpected
+
+//@ func (c *spliceInsert) SetIsProgramSplice(value bool)
+//@   props C09 C05
+//@   requires c != nil
+//@   ensures c.isProgramSplice == value
+//@   modifies c.isProgramSplice
+
+//@ func (c *spliceInsert) SetSpliceImmediate(value bool)
+//@   props C09 C05
+//@   requires c != nil
+//@   ensures c.spliceImmediate == value
+//@   modifies c.spliceImmediate
+
+//@ func (c *spliceInsert) SetPTS(value gots.PTS)
+//@   props C09 C05
+//@   requires c != nil
+//@   ensures c.pts == value&0x01ffffffff
+//@   modifies c.pts
+
+//@ func (c *spliceInsert) SetDuration(value gots.PTS)
+//@   props C09 C05
+//@   requires c != nil
+//@   ensures c.duration == value
+//@   modifies c.duration
+
+//@ func (c *timeSignal) SetHasPTS(value bool)
+//@   props C09 C05
+//@   requires c != nil
+//@   ensures c.hasPTS == value
+//@   modifies c.hasPTS
+
+//@ func (c *timeSignal) SetPTS(value gots.PTS)
+//@   props C09 C05
+//@   requires c != nil
+//@   ensures c.pts == value&0x01ffffffff
+//@   modifies c.pts
+
+//@ func (c *component) SetComponentTag(value byte)
+//@   props C09 C05
+//@   requires c != nil
+//@   ensures c.componentTag == value
+//@   modifies c.componentTag
+
+//@ func (c *component) SetHasPTS(value bool)
+//@   props C09 C05
+//@   requires c != nil
+//@   ensures c.hasPts == value
+//@   modifies c.hasPts
+
+//@ func (c *component) SetPTS(value gots.PTS)
+//@   props C09 C05
+//@   requires c != nil
+//@   ensures c.pts == value&0x01ffffffff
+//@   modifies c.pts
+
 var _ = bytes.MinRead
